@@ -6,7 +6,7 @@
    Go source on every run; everything else is written by hand from
    internal/ipset/ipset.go and tied to the code by the correspondence
    driver (harness/overlay/internal/ipset/zz_verif_c17_test.go). *)
-From Sdns Require Import Common.Base Gen.C17.
+From Sdns Require Import Common.Base Common.GoList Gen.C17.
 Open Scope N_scope.
 
 (* an address as a number *)
@@ -170,7 +170,7 @@ Definition buffer_remote_v4 : N := ((buffer_o0 * 256 + buffer_o1) * 256 + buffer
 Definition subquery_remote : remote :=
   (* net.IPv4(..) is the 16-byte IPv4-mapped form *)
   mk_remote KTcp (Some (mk_addr false (mapped_prefix + buffer_remote_v4))) buffer_remote_port
-            (Some (go_BufferWriter_Internal mk_T_BufferWriter)).
+            (Some true).   (* BufferWriter.Internal(): [forall w, go_BufferWriter_Internal w = true], Proofs_writer *)
 (* accesslist.ServeDNS as the chain runs it: Internal() and RemoteIP() of the chain's writer *)
 Definition acl_serve_remote (s : ipset) (r : remote) : acl_outcome :=
   acl_serve s (writer_internal r) (writer_remote_ip r).
@@ -209,3 +209,58 @@ Definition sub_pipeline (handlers skip : list (list N)) : list (list N) :=
 Definition queryer_sub (handlers : list (list N)) : list (list N) := sub_pipeline handlers client_only.
 Definition prefetch_sub (handlers : list (list N)) : list (list N) :=
   sub_pipeline handlers (client_only ++ [cache_handler_name]).
+
+(* -------- what else an internal request skips: the per-client rate limiter.
+   ratelimit.ServeDNS entry guards in their order (after the replay pass-through): Internal(),
+   rate = 0, no peer address, loopback peer (net.IP.IsLoopback: 127/8 for an address with an IPv4
+   form, ::1 otherwise); everything else is charged against its source's bucket. *)
+Definition is_loopback (a : addr) : bool :=
+  let u := unmap a in if a_is4 u then a_val u / 2 ^ 24 =? 127 else a_val u =? 1.
+Definition rl_charged (rate : N) (r : remote) : bool :=
+  if writer_internal r then false else
+  if rate =? 0 then false else
+  match writer_remote_ip r with
+  | None => false
+  | Some a => negb (is_loopback a)
+  end.
+(* a flood of n cookie-less queries from one remote whose bucket is fresh, faster than the refill
+   (rate per minute, burst = rate): how many pass the limiter *)
+Definition flood_answered (rate n : N) (r : remote) : N := if rl_charged rate r then N.min n rate else n.
+(* a flood of n sub-queries through an internal sub-pipeline (via 0 = the queryer's, 1 = the
+   prefetch queryer's): the limiter only sees them if it is in that sub-pipeline at all, and then
+   it sees the sub-query writer *)
+Definition n_ratelimit_name : list N := [114;97;116;101;108;105;109;105;116].
+Definition sub_flood_answered (handlers : list (list N)) (via rate n : N) : N :=
+  let sub := if via =? 0 then queryer_sub handlers else prefetch_sub handlers in
+  if mem_name n_ratelimit_name sub then flood_answered rate n subquery_remote else n.
+
+(* -------- which records a matched view serves: the loop over cv.answers of views.ServeDNS, statement by
+   statement ([go_nameMatches] is views.nameMatches as translated from the source; names are octet
+   strings, ASCII). Records are numbered in configuration order; the result is the list of the indices
+   served, in order: the exact-owner matches if there are any, else the wildcard matches whose owner has
+   the longest suffix seen (bestWildSuffix starts at 0). *)
+
+Definition vrec := (list N * N)%type.
+Definition wildcard_owner (o : list N) : bool := go_has_prefix N.eqb o [42; 46].
+Definition rec_matches (qname : list N) (qtype : N) (rr : vrec) : bool :=
+  (snd rr =? qtype) && go_nameMatches (go_canonical_name_ascii (fst rr)) qname.
+Fixpoint view_select (answers : list vrec) (qname : list N) (qtype : N) (i : nat)
+         (exact wild : list nat) (best : Z) : list nat * list nat :=
+  match answers with
+  | [] => (exact, wild)
+  | rr :: rest =>
+      if negb (snd rr =? qtype) then view_select rest qname qtype (S i) exact wild best else
+      let owner := go_canonical_name_ascii (fst rr) in
+      if negb (go_nameMatches owner qname) then view_select rest qname qtype (S i) exact wild best else
+      if negb (wildcard_owner owner) then view_select rest qname qtype (S i) (exact ++ [i]) wild best else
+      let sl := (go_len owner - 2)%Z in
+      if (best <? sl)%Z then view_select rest qname qtype (S i) exact [i] sl
+      else if (sl =? best)%Z then view_select rest qname qtype (S i) exact (wild ++ [i]) best
+      else view_select rest qname qtype (S i) exact wild best
+  end.
+Definition view_answer (answers : list vrec) (qname : list N) (qtype : N) : list nat :=
+  let '(e, w) := view_select answers (go_canonical_name_ascii qname) qtype 0 [] [] 0%Z in
+  match e with [] => w | _ => e end.
+Definition view_has_record (answers : list vrec) (qname : list N) (qtype : N) : bool :=
+  match view_answer answers qname qtype with [] => false | _ => true end.
+
